@@ -67,6 +67,8 @@ pub enum Q {
     Smooth(usize),
     /// wmc<Real> under the second weight table
     Wmc2,
+    /// another object of the library (rotating kind) is created, used and dropped on this thread
+    Interloper(usize),
     /// the builder's own statistics queries (node counts, redundancy count); their answers
     /// legitimately depend on what was allocated before, so only their effect on later
     /// queries is compared
@@ -95,6 +97,9 @@ pub fn bdd_queries(n: usize) -> Vec<(String, Q)> {
     }
     v.push(("wmc<Real> (second weight table)".to_string(), Q::Wmc2));
     v.push(("builder statistics".to_string(), Q::BuilderStats));
+    for k in [0usize, 3, 6] {
+        v.push((format!("another library object #{} created and dropped", k), Q::Interloper(k)));
+    }
     v
 }
 
@@ -173,6 +178,10 @@ fn bdd_query<'a>(b: &'a AllBuilder<'a>, p: BddPtr<'a>, q: &Q, fx: &Fix) -> Resul
             let _ = (b.stats(), b.num_recursive_calls());
             String::new()
         }
+        Q::Interloper(k) => {
+            crate::props::bddutil::interloper(*k);
+            String::new()
+        }
         Q::Cond(x, val) => digest_bdd(b.condition(p, VarLabel::new(*x as u64), *val), n),
         Q::Exists(x) => digest_bdd(b.exists(p, VarLabel::new(*x as u64)), n),
         Q::CondModel(m) => {
@@ -206,7 +215,7 @@ fn explore_bdd(f: TT, g: TT, n: usize, order: &[usize], depth: usize, kind: u8, 
 /// the *builder* rather than in the nodes; the smaller alphabet makes every triple affordable
 fn explore_bdd_sel(f: TT, g: TT, n: usize, order: &[usize], depth: usize, kind: u8, rep: &mut Report, ops_only: bool) {
     let fx = fixtures(n);
-    let qs: Vec<(String, Q)> = bdd_queries(n).into_iter().filter(|(_, q)| !ops_only || matches!(q, Q::Cond(_, _) | Q::Exists(_) | Q::CondModel(_) | Q::Smooth(_) | Q::Fixed(11) | Q::BuilderStats)).collect();
+    let qs: Vec<(String, Q)> = bdd_queries(n).into_iter().filter(|(_, q)| !ops_only || matches!(q, Q::Cond(_, _) | Q::Exists(_) | Q::CondModel(_) | Q::Smooth(_) | Q::Fixed(11) | Q::BuilderStats | Q::Interloper(0))).collect();
     let nq = qs.len();
     // reference answers: every (query, member) on a fresh copy in a fresh builder
     let npool = match kind {
